@@ -132,6 +132,20 @@ class VObj(V):
         return "VObj(%s %s)" % (self.cls, self.name)
 
 
+class DictVal:
+    """immutable content of a dict box: key set + value array (values at absent keys are junk that is
+    carried along unchanged, so equality of two DictVals implies equality of the dicts)"""
+
+    def __init__(self, kty, vty, keys, vals):
+        self.kty, self.vty, self.keys, self.vals = kty, vty, keys, vals
+
+
+def empty_dict(kty, vty):
+    ks, vs = sort_of(kty), sort_of(vty)
+    junk = z3.Const("dict0_%s_%s" % (str(ks).replace(" ", ""), str(vs).replace(" ", "")), z3.ArraySort(ks, vs))
+    return DictVal(kty, vty, z3.K(ks, z3.BoolVal(False)), junk)
+
+
 class VPy(V):
     """A concrete Python object the code only passes around / calls speclib on
     (compiled patterns, modules, exception classes, real classes)."""
@@ -174,6 +188,40 @@ class VClass(V):
 
 _tuple_sorts = {}
 
+# Classes whose instances may be stored in lists / dicts *by value* (struct of their fields): sound
+# for functions that do not mutate such an object after storing it and do not compare identities.
+# cls -> [(field name, type)], type in int/bool/str/bytes/('opt', T)/'objnone' (only the None-ness of
+# an object-valued field is kept).
+REC_CLASSES = {}
+_rec_sorts = {}
+
+
+def rec_sort(cls):
+    if cls not in _rec_sorts:
+        dt = z3.Datatype("Rec_" + cls)
+        comps = []
+        for fname, ty in REC_CLASSES[cls]:
+            base = fname.strip("_").replace("__", "_")
+            if ty == "objnone":
+                comps.append((base + "_none", B))
+            elif isinstance(ty, tuple) and ty[0] == "opt":
+                comps.append((base + "_none", B))
+                comps.append((base + "_val", sort_of(ty[1])))
+            else:
+                comps.append((base, sort_of(ty)))
+        dt.declare("mk_" + cls, *comps)
+        srt = dt.create()
+        _rec_sorts[cls] = (srt, srt.constructor(0), [srt.accessor(0, i) for i in range(len(comps))])
+    return _rec_sorts[cls]
+
+
+def _default(ty):
+    if ty == "int":
+        return z3.IntVal(0)
+    if ty == "bool":
+        return z3.BoolVal(False)
+    return z3.Empty(sort_of(ty))
+
 
 def sort_of(ty):
     if ty in ("int",):
@@ -184,6 +232,8 @@ def sort_of(ty):
         return SeqI
     if isinstance(ty, tuple) and ty[0] == "list":
         return z3.SeqSort(sort_of(ty[1]))
+    if isinstance(ty, tuple) and ty[0] == "rec":
+        return rec_sort(ty[1])[0]
     if isinstance(ty, tuple) and ty[0] == "tuple":
         key = tuple(ty[1])
         if key not in _tuple_sorts:
@@ -208,6 +258,23 @@ def wrap(ty, term):
         _, mk, accs = _tuple_sorts[tuple(ty[1])] if tuple(ty[1]) in _tuple_sorts else (sort_of(ty), None, None)
         _, mk, accs = _tuple_sorts[tuple(ty[1])]
         return VTuple([wrap(t, a(term)) for t, a in zip(ty[1], accs)])
+    if isinstance(ty, tuple) and ty[0] == "rec":
+        srt, mk, accs = rec_sort(ty[1])
+        fields = {}
+        i = 0
+        for fname, fty in REC_CLASSES[ty[1]]:
+            if fty == "objnone":
+                fields[fname] = VOpt(accs[i](term), VPy("<object not kept in a by-value record>"))
+                i += 1
+            elif isinstance(fty, tuple) and fty[0] == "opt":
+                fields[fname] = VOpt(accs[i](term), wrap(fty[1], accs[i + 1](term)))
+                i += 2
+            else:
+                fields[fname] = wrap(fty, accs[i](term))
+                i += 1
+        o = VObj(ty[1], fields, "rec")
+        o.frozen = True
+        return o
     raise TypeError("wrap %r" % (ty,))
 
 
@@ -231,6 +298,28 @@ def unwrap(ty, v):
         sort_of(ty)
         _, mk, accs = _tuple_sorts[tuple(ty[1])]
         return mk(*[unwrap(t, x) for t, x in zip(ty[1], v.items)])
+    if isinstance(ty, tuple) and ty[0] == "rec":
+        srt, mk, accs = rec_sort(ty[1])
+        if isinstance(v, VOpt):
+            v = v.val
+        comps = []
+        for fname, fty in REC_CLASSES[ty[1]]:
+            x = v.fields.get(fname, NONE)
+            if fty == "objnone":
+                comps.append(z3.BoolVal(True) if x is NONE else (x.isnone if isinstance(x, VOpt) else z3.BoolVal(False)))
+            elif isinstance(fty, tuple) and fty[0] == "opt":
+                if x is NONE:
+                    comps += [z3.BoolVal(True), _default(fty[1])]
+                elif isinstance(x, VOpt):
+                    # canonical junk for None so that records with equal Python values are equal terms
+                    comps += [x.isnone, z3.If(x.isnone, _default(fty[1]), unwrap(fty[1], x.val))]
+                else:
+                    comps += [z3.BoolVal(False), unwrap(fty[1], x)]
+            else:
+                if isinstance(x, VOpt):
+                    x = x.val
+                comps.append(unwrap(fty, x))
+        return mk(*comps)
     raise TypeError("unwrap %r" % (ty,))
 
 
@@ -245,6 +334,10 @@ def type_of(v):
         return v.kind if v.kind in ("str", "bytes") else ("list", v.ety)
     if isinstance(v, VTuple):
         return ("tuple", [type_of(x) for x in v.items])
+    if isinstance(v, VObj) and v.cls in REC_CLASSES:
+        return ("rec", v.cls)
+    if isinstance(v, VOpt) and isinstance(v.val, VObj) and v.val.cls in REC_CLASSES:
+        return ("rec", v.val.cls)
     raise TypeError("type_of %r" % (v,))
 
 
